@@ -418,7 +418,7 @@ impl<'c, KD: Kind, const N: usize> MapEng<'c, KD, N> {
             if state.has(cx.armed) && !faulted {
                 for u in 0..univ {
                     let want = slot.model.get(&u).map(|e| e.val);
-                    let qo = KD::qo(u);
+                    let qo = KD::qo_alt(u, u as usize + cx.step);
                     let got = tl::quiet(|| slot.c.m.get(KD::q(&qo)).map(|v| KD::vval(v)));
                     cx.chk(state, got == Ok(want), "lookup-borrowed", || format!("map {w}: get({u}) by borrowed form gives {got:?}, model {want:?}"));
                     let key = KD::key(u);
@@ -686,7 +686,7 @@ pub fn run<KD: Kind, const N: usize>(case: &Case, cx: &mut Ctx) {
 
 /// Dispatch on (kind, capacity).
 pub fn run_dyn(case: &Case, cx: &mut Ctx) {
-    use mmv_base::kinds::{Large, NoDrop, Plain, Str, Tagged, Tracked, ZstBoth, ZstKey, ZstVal};
+    use mmv_base::kinds::{Large, NoDrop, PathK, Plain, Str, Tagged, Tracked, ZstBoth, ZstKey, ZstVal};
     let n = mmv_base::capacity_of(case);
     match case.kind % mmv_base::case::NKINDS {
         0 => mmv_base::by_cap!(run, Tracked, n, case, cx, [0, 1, 2, 3, 4, 6, 9, 17, 32, 33, 64, 70]),
@@ -697,6 +697,7 @@ pub fn run_dyn(case: &Case, cx: &mut Ctx) {
         5 => mmv_base::by_cap!(run, ZstVal, n, case, cx, [0, 1, 3]),
         6 => mmv_base::by_cap!(run, NoDrop, n, case, cx, [0, 1, 2, 3, 4, 6]),
         7 => mmv_base::by_cap!(run, ZstBoth, n, case, cx, [0, 1, 2]),
-        _ => mmv_base::by_cap!(run, Tagged, n, case, cx, [0, 1, 2, 3, 4, 6, 9]),
+        8 => mmv_base::by_cap!(run, Tagged, n, case, cx, [0, 1, 2, 3, 4, 6, 9]),
+        _ => mmv_base::by_cap!(run, PathK, n, case, cx, [0, 1, 2, 3, 4, 6]),
     }
 }
